@@ -20,6 +20,16 @@ ASSUMPTIONS = [
 
 PROPS = {
 
+    "C05": {"rule": 'worlds of 3-8 keys, a program id, instruction data of 0..300 bytes, 0-6 accounts with data of 0..300 bytes (or none); configs from the real constructors: fixed keys, PDAs over 0-4 seeds (literals, instruction-data slices incl. 0/32/33 bytes and ranges ending at / one past the end, account keys, account-data slices; indices in range, one past, random), 15 and 16 account-key seeds, external-program PDAs (index in / out of range), key-from-data configs at offsets len-32 / len-31; plus raw 35-byte configs over all kind bytes (3, 4, 127, 128, 129, 255) and flag bytes {0,1,2,255}' + "; every config is resolved by the real ExtraAccountMeta::resolve and by an independent resolver written from the property text (PDAs recomputed with Pubkey::try_find_program_address); "
+            "the Gallina PDA derivation (SHA-256 + Ed25519 point test) is compared with solana-pubkey on 60 seed sets and 60 random 32-byte strings per run; constructors on 2000 seed lists; non-trivial = resolved successfully",
+            "partial": ["PDA hash / curve test equal the crates': the executable oracle Lib/Pda.v is validated per run, the theorems quantify over any find_pda"], "masks": [],
+            "assumptions": ["stored configs are 32 bytes (ExtraAccountMeta.address_config is [u8; 32])"]},
+    "C06": {"rule": 'worlds of 3-8 keys, a program id, instruction data of 0..300 bytes, 0-6 accounts with data of 0..300 bytes (or none); configs from the real constructors: fixed keys, PDAs over 0-4 seeds (literals, instruction-data slices incl. 0/32/33 bytes and ranges ending at / one past the end, account keys, account-data slices; indices in range, one past, random), 15 and 16 account-key seeds, external-program PDAs (index in / out of range), key-from-data configs at offsets len-32 / len-31; plus raw 35-byte configs over all kind bytes (3, 4, 127, 128, 129, 255) and flag bytes {0,1,2,255}' + "; scenarios: 0-6 instruction metas over the key universe (duplicate keys with mixed flags), 0-6 stored configs, a pool with one data value per key (PDAs and key-from-data targets added, 1/6 left out); "
+            "both helpers run on the same stored TLV data (written by the real init); every appended meta is checked against the metas before it", "partial": [], "masks": [], "assumptions": []},
+    "C07": {"rule": 'worlds of 3-8 keys, a program id, instruction data of 0..300 bytes, 0-6 accounts with data of 0..300 bytes (or none); configs from the real constructors: fixed keys, PDAs over 0-4 seeds (literals, instruction-data slices incl. 0/32/33 bytes and ranges ending at / one past the end, account keys, account-data slices; indices in range, one past, random), 15 and 16 account-key seeds, external-program PDAs (index in / out of range), key-from-data configs at offsets len-32 / len-31; plus raw 35-byte configs over all kind bytes (3, 4, 127, 128, 129, 255) and flag bytes {0,1,2,255}' + "; an accepted list is built by resolving off-chain and restoring the configured flags, then every single-field mutation (one key, one flag, one swap, one account dropped / added, one data byte), "
+            "lists shorter than the config list, and malformed stored data (truncated, mutated header, random, 0xffffffff length); expected verdict from the independent resolver", "partial": [], "masks": [], "assumptions": []},
+    "C08": {"rule": 'worlds of 3-8 keys, a program id, instruction data of 0..300 bytes, 0-6 accounts with data of 0..300 bytes (or none); configs from the real constructors: fixed keys, PDAs over 0-4 seeds (literals, instruction-data slices incl. 0/32/33 bytes and ranges ending at / one past the end, account keys, account-data slices; indices in range, one past, random), 15 and 16 account-key seeds, external-program PDAs (index in / out of range), key-from-data configs at offsets len-32 / len-31; plus raw 35-byte configs over all kind bytes (3, 4, 127, 128, 129, 255) and flag bytes {0,1,2,255}' + "; scenarios as C06 under the property's precondition (initial infos mirror the metas, pool functional, fetcher = the pool, error for keys outside); each scenario also re-run with the pool reversed and rotated", "partial": [], "masks": [], "assumptions": ["fetcher returns Err for keys that are not in the pool"]},
+
     "C18": {"rule": "700 generated items per run (struct/enum, unit/braced, 0-2 lifetimes, 0-3 type parameters with inline bounds / defaults / where-clauses, const parameters, extra attributes) "
             "with hash-input literals of 0..200 chars over an alphabet with quotes, backslashes, tab/newline, braces, non-ASCII (2-4 byte UTF-8) written as escaped or raw literals, lengths 55/56/63/64/119/120 to cross SHA-256 block boundaries, "
             "leading/trailing whitespace; each goes through the real SplDiscriminateBuilder at run time (bytes + emitted impl header parsed back with syn), ArrayDiscriminator::new_with_hash_input and sha2; "
